@@ -52,6 +52,13 @@ Theorem C22_refuted_concurrent_submit :
     /\ t_cur (get_thr s 0) = Some 0%nat /\ c_st (get_co s 0) = CRunning.
 Proof. exists race_progs, race_sched. vm_compute. repeat split. Qed.
 
+(** one scheduler thread is enough for a race: the monitor thread scans the set while the
+    listener's insert is in flight (reader against writer) *)
+Theorem C22_refuted_scan_during_update :
+  exists progs sched,
+    wfp 1 progs = true /\ m_defect (mrun (minit false 0 1 progs) sched) = true.
+Proof. exists scan_race_progs, scan_race_sched. vm_compute. split; reflexivity. Qed.
+
 (** ... and what still holds around that finding: at every quiescent moment of a run in which no
     write-back overwrote a concurrent operation, the node set is exact *)
 Theorem C22_holds_outside : forall clock nthr progs sched t,
@@ -93,4 +100,5 @@ Print Assumptions C22_overdue_signalled.
 Print Assumptions C22_syscall_never_suspended.
 Print Assumptions C22_results_unchanged.
 Print Assumptions C22_refuted_concurrent_submit.
+Print Assumptions C22_refuted_scan_during_update.
 Print Assumptions C22_holds_outside.
